@@ -181,7 +181,7 @@ def _status(ck: Checker) -> None:
     prog = ck.prog
     fn = prog.func("hashfile.status", "status")
     rets = [r for r in walk_own(fn.node) if isinstance(r, ast.Return) and isinstance(r.value, ast.Call) and call_name(r.value) == "StatusResult"]
-    ck.floor("C12.status", len(rets), 2, "StatusResult return sites")
+    ck.floor("C12.status", len(rets), 1, "StatusResult return sites")
     main = 0
     for r in rets:
         a = list(r.value.args)
